@@ -7,7 +7,8 @@ from hypothesis import strategies as st
 
 from vlib import gen
 
-LABELS = ["a", "b", "c", "d", "e", "f", "a1", "ä"]
+# ("a 1": sorts after "a" by name, but before it by repr() - the quote is greater than the space)
+LABELS = ["a", "b", "c", "d", "e", "f", "a1", "ä", "a 1"]
 # node references are taken modulo the number of nodes; one in four reaches far into a big tree (gen.big_specs)
 REF = st.sampled_from([40, 40, 40, 400]).flatmap(lambda hi: st.integers(0, hi))
 PREF = st.one_of(st.just(-1), REF)  # parent ref incl. the tree itself
